@@ -326,7 +326,19 @@ def schemas():
       type Subscription { tick: Int }
     """)
     s3 = build_schema("type Query { x: Int } type Broken")  # an invalid schema
-    _schemas = [s1, s2, s3]
+    # every root type, abstract types, a repeatable custom directive (@defer/@stream stay undefined: execute()
+    # documents that it refuses schemas that define them, the rules about them run all the same)
+    s4 = build_schema("""
+      directive @tag(n: Int! = 1, s: [String!]) repeatable on FIELD | FRAGMENT_SPREAD | INLINE_FRAGMENT | QUERY
+      interface Node { id: ID }
+      type T implements Node { id: ID, name: String, a: T, f: [T], x: Int, y: String! }
+      type U implements Node { id: ID, c: Int }
+      union TU = T | U
+      type Query { a: T, f: [T], any: TU, u: U, node(id: ID!): Node, id: ID, name: String, x(i: Int): Int, l: [Int] }
+      type Mutation { set(v: Int): Int, a: T }
+      type Subscription { tick: Int, a: T, f: [T] }
+    """)
+    _schemas = [s1, s2, s3, s4]
     return _schemas
 
 
@@ -346,7 +358,36 @@ TEMPLATES = [
     "{ __schema { types { name } } __type(name: \"T\") { fields { name } } }",
     "subscription S { tick }",
     "fragment F on T { id ...F } { a { ...F } }",
+    "{ a { ...F ... on T { name } ... { id } } f { id } any { __typename } } fragment F on T { x f { id } }",
+    "subscription S { a { id ... { name } } }",
+    "subscription S { ... { tick } }",
+    "subscription { ...F } fragment F on Subscription { tick }",
+    "mutation M { a { ...F f { id } } set(v: 1) } fragment F on T { name }",
 ]
+
+DIRECTIVE_NAMES = ["stream", "defer", "skip", "include", "tag", "deprecated", "specifiedBy", "oneOf",
+                   "experimental_disableErrorPropagation", "nope"]
+DIRECTIVE_ARG_NAMES = ["if", "label", "initialCount", "n", "s", "reason", "url", "zz"]
+DIRECTIVE_ARG_VALUES = ["true", "false", '"x"', "1", "0", "-1", "1.5", "null", "$i", "$b", "$nope", "[true]",
+                        '["a"]', "{a: 1}", "RED", '""', "2147483648"]
+
+
+def _sprinkle(text, c):
+    """Directives (known and unknown, with right and wrong arguments) after 1-3 names or spreads."""
+    import re
+
+    t = text
+    for _ in range(c.count(1, 3)):
+        spots = [m.end() for m in re.finditer(r"[A-Za-z_][A-Za-z_0-9]*|\.\.\.", t)]
+        if not spots:
+            break
+        pos = c.choose(spots)
+        args = ", ".join(f"{c.choose(DIRECTIVE_ARG_NAMES)}: {c.choose(DIRECTIVE_ARG_VALUES)}"
+                         for _ in range(c.count(0, 2)))
+        d = " @" + c.choose(DIRECTIVE_NAMES) + (f"({args})" if args else "") + " "
+        t = t[:pos] + d + t[pos:]
+    return t
+
 
 
 class _Weird:
@@ -357,7 +398,8 @@ class _Weird:
 def value_pool():
     from graphql.pyutils import Undefined
 
-    return [None, True, False, 0, 1, -1, 2**31 - 1, 2**31, -2**31 - 1, 2**53 + 1, 10**400, 1.5, -0.0,
+    return [None, True, False, 0, 1, -1, 2**31 - 1, 2**31, -2**31 - 1, 2**53 + 1, 10**400, 10**5000,
+            -10**5000, [10**5000], {"a": 10**5000}, 1.5, -0.0,
             float("nan"), float("inf"), "", "x", "1", "RED", "1e3", b"x", [], [1], [1, [2]], [None],
             {}, {"a": 1}, {"b": "s"}, {"a": {"b": [None]}}, {"b": "s", "c": [{"b": "t"}]}, {"x": 1},
             {"x": 1, "y": "s"}, {"x": None}, (1, 2), {1, 2}, _Weird(), Undefined, object, len,
@@ -422,11 +464,25 @@ def validate_formatted(f, allow_custom_any=False):
     return probs
 
 
+def _vrepr(v):
+    """repr that survives integers beyond the interpreter's decimal conversion limit (written in hex, which
+    ast.literal_eval reads back exactly)."""
+    if isinstance(v, int) and not isinstance(v, bool) and abs(v) >= 10**1000:
+        return hex(v)
+    if type(v) is dict:
+        return "{" + ", ".join(f"{_vrepr(k)}: {_vrepr(x)}" for k, x in v.items()) + "}"
+    if type(v) is list:
+        return "[" + ", ".join(_vrepr(x) for x in v) + "]"
+    if type(v) is tuple:
+        return "(" + ", ".join(_vrepr(x) for x in v) + ("," if len(v) == 1 else "") + ")"
+    return repr(v)
+
+
 def eval_request(si, source, variables, opname, use_async):
     from graphql import ExecutionResult, graphql, graphql_sync
 
     schema = schemas()[si]
-    case = {"schema": si, "source": source, "variables": repr(variables), "operation_name": opname,
+    case = {"schema": si, "source": source, "variables": _vrepr(variables), "operation_name": opname,
             "async": use_async}
     vs = []
     try:
@@ -441,7 +497,7 @@ def eval_request(si, source, variables, opname, use_async):
             r = graphql_sync(schema, source, variable_values=variables, operation_name=opname)
     except Exception as e:  # noqa: BLE001
         vs.append(Violation(("C01", "request-raises", type(e).__name__),
-                            f"{type(e).__name__}: {e} for {source!r} vars={variables!r} op={opname!r}",
+                            f"{type(e).__name__}: {e} for {source!r} vars={_vrepr(variables)[:300]} op={opname!r}",
                             case, {"exc": type(e).__name__}))
         return vs, True, case
     if not isinstance(r, ExecutionResult):
@@ -451,11 +507,11 @@ def eval_request(si, source, variables, opname, use_async):
         f = r.formatted
     except Exception as e:  # noqa: BLE001
         vs.append(Violation(("C01", "formatted-raises", type(e).__name__),
-                            f"{e!r} for {source!r} vars={variables!r}", case))
+                            f"{e!r} for {source!r} vars={_vrepr(variables)[:300]}", case))
         return vs, True, case
     for p in validate_formatted(f):
         vs.append(Violation(("C01", "response-format", p.split(":")[0][:40]),
-                            f"{p}; source {source!r} vars={variables!r} op={opname!r} -> {str(f)[:300]}",
+                            f"{p}; source {source!r} vars={_vrepr(variables)[:300]} op={opname!r} -> {str(f)[:300]}",
                             case))
     nontrivial = bool(r.errors) or r.data is not None
     return vs, nontrivial, case
@@ -470,11 +526,13 @@ def _pipeline(nex):
                 source = g1.layout(g1.to_tokens(tree), c.ints(6))
             elif k == 1:
                 source = _mutate(c.choose(TEMPLATES), c)
+            elif k == 2:
+                source = _sprinkle(c.choose(TEMPLATES), c)
             else:
                 source = c.choose(TEMPLATES)
             names = [w for w in "Q A B M S F i v f o l c b".split()]
             opname = c.choose([None, None, "Q", "A", "B", "M", "S", "", "nope", "\ud800", "F"])
-            return {"schema": c.choose([0, 0, 0, 1, 1, 2]), "source": source,
+            return {"schema": c.choose([0, 0, 0, 1, 1, 2, 3, 3, 3]), "source": source,
                     "vars": g_variables(c, names), "op": opname, "async": c.chance(40)}
 
         def body(case):
